@@ -127,6 +127,16 @@ def run_case(ctx, stream, version, phase, name, make, level):
                 if phase == "handshake":
                     dev.script = [("custom", custom)]
                 await ac.authenticate(token, key)
+            if phase == "rehandshake":
+                # the session is lost (peer closes every connection); the next operation re-authenticates BY ITSELF with the
+                # stored credentials, and it is THAT handshake the peer answers adversarially
+                import asyncio as _a
+                for cid in list(dev.conns):
+                    tr = dev.conns[cid].get("transport")
+                    if tr is not None:
+                        tr.peer_close(0.01)
+                await _a.sleep(0.1)
+                dev.script = [("custom", custom)]
             if phase == "data":
                 dev.script = [("custom", custom)]
             if level == "lan":
@@ -172,7 +182,7 @@ def run_case(ctx, stream, version, phase, name, make, level):
         ctx.violate(stream, inp, out, "decoded frames, protocol/authentication error or timeout" if level == "lan" else "normal return",
                     f"{out} escaped the transport layer")
     # (recovery after a failed *handshake* is C08's subject: see D9 there)
-    if result.get("after") is not True and ok and phase == "data":
+    if result.get("after") is not True and ok and phase in ("data", "rehandshake"):
         ctx.violate(stream, inp, {"following_refresh": result.get("after")}, True,
                     "device object not usable after an adversarial reply")
     ctx.count(f"{stream}:{out}")
@@ -191,6 +201,7 @@ def run(ctx):
             run_case(ctx, "v3_data", 3, "data", name, make, "lan")
             run_case(ctx, "v3_data_refresh", 3, "data", name, make, rng.choice(["refresh", "send_command"]))
             run_case(ctx, "v3_handshake", 3, "handshake", name, make, "lan")
+            run_case(ctx, "v3_rehandshake", 3, "rehandshake", name, make, rng.choice(["refresh", "send_command", "lan"]))
 
 
 def search(ctx):
